@@ -39,6 +39,10 @@ None == [x \in {} |-> TRUE]
 Table ==
   [ valid             |-> K("none", R,  None, {}),
     on_chain          |-> K("self", R,  [idx |-> "tip", prev |-> FALSE, ts |-> "equal", hid |-> "f"], {}),
+    \* two-step offer in the hdr_ahead_badroot states: first the correct block, then the block whose header (validly
+    \* signed and linked, WRONG PrevStateRoot) was recorded ahead; described here as it is when the first step was
+    \* refused (its index is then one too far); if the first step was accepted it is the next block with a wrong root
+    badroot_next      |-> K("self", R,  [idx |-> "skip", prevroot |-> FALSE, hid |-> "f"], {"srih", "badroot"}),
     idx_minus1        |-> K("hdr",  RR, [idx |-> "tip"], {}),
     idx_plus1         |-> K("hdr",  RR, [idx |-> "skip"], {}),
     idx_far           |-> K("hdr",  RR, [idx |-> "far"], {}),
@@ -65,6 +69,8 @@ Table ==
     wit_swapped       |-> K("wit",  R,  [wit |-> FALSE], {}),
     tx_reorder        |-> K("txs",  RR, None, {}),
     tx_drop           |-> K("txs",  RR, None, {}),
+    \* the WHOLE transaction list of the (non-empty) block is dropped: raw = header of the correct block with no body
+    tx_drop_all       |-> K("txs",  RR, None, {}),
     tx_dup            |-> K("txs",  RR, [txdef |-> "mutual"], {}),
     tx_dup_last_odd   |-> K("keep", R,  [txdef |-> "mutual"], {}),
     tx_alter          |-> K("txs",  RR, [txdef |-> "wit_new"], {}),
@@ -109,11 +115,13 @@ C1 == [hid |-> "c", rootok |-> TRUE]
 NodeState(sk) ==
     [blkH |-> 1, led |-> <<"c">>,
      hdrs |-> CASE sk = "hdr_ahead" -> <<C1, C1>>
-                [] sk = "hdr_ahead_badroot" -> <<C1, [hid |-> "f", rootok |-> FALSE]>>
+                [] sk = "hdr_ahead_badroot" -> <<C1, [hid |-> "f", rootok |-> FALSE]>>        \* exactly one header above the offered block's
+                [] sk = "hdr_ahead_badroot2" -> <<C1, [hid |-> "f", rootok |-> FALSE], [hid |-> "g", rootok |-> TRUE]>>
                 [] OTHER -> <<>>,
      pool |-> CASE sk = "pool_has" -> {"t", "u"} [] sk = "pool_other" -> {"u"} [] OTHER -> {}]
 
 Height0(sk) == sk = "fresh"
+BadRootStates == {"hdr_ahead_badroot", "hdr_ahead_badroot2"}
 
 Applicable(sk, srih, vt, via, k, f) ==
     LET e == Table[k] IN
@@ -121,7 +129,8 @@ Applicable(sk, srih, vt, via, k, f) ==
     /\ ("srih" \in e.need => srih)
     /\ ("h1" \in e.need => ~Height0(sk))
     /\ ("prep" \in e.need => sk \notin {"fresh"})
-    /\ (sk = "hdr_ahead_badroot" => (srih /\ k = "valid" /\ via = "block"))
+    /\ (sk \in BadRootStates => (srih /\ k \in {"valid", "badroot_next"} /\ via = "block"))
+    /\ ("badroot" \in e.need => sk \in BadRootStates)
     /\ (~vt => sk = "mid")
     /\ (via = "header" => (sk \in {"mid", "hdr_ahead", "epoch"} /\ e.touch \in {"none", "hdr", "wit"} /\ k # "srflag" /\ vt))
 
